@@ -12,8 +12,10 @@ mod evt; mod stk;
 mod ext;
 mod gaps;
 mod json;
+mod mapread;
 mod model;
 mod proto;
+mod quote;
 mod scale;
 mod search;
 mod sut;
@@ -119,6 +121,16 @@ fn cmd_search(args: &[String]) -> i32 {
         let deadline = max_seconds.map(|t| Instant::now() + Duration::from_secs_f64(t.max(0.0)));
         return gaps::cmd_search(&target, universe, jobs, deadline);
     }
+    // agreement of the read paths of maps / XML attributes (mapread.rs: mapread | map_paths | xml_attrs)
+    if mapread::is_target(&target) {
+        let deadline = max_seconds.map(|t| Instant::now() + Duration::from_secs_f64(t.max(0.0)));
+        return mapread::cmd_search(&target, universe, jobs, deadline);
+    }
+    // quotations and map links (quote.rs: quote | quote_seq | quote_map | quote_obs)
+    if quote::is_target(&target) {
+        let deadline = max_seconds.map(|t| Instant::now() + Duration::from_secs_f64(t.max(0.0)));
+        return quote::cmd_search(&target, universe, jobs, deadline);
+    }
     // change events (evt.rs: events | evt_keys | evt_seq), sticky indexes (stk.rs: sticky | stk_offset | stk_codec)
     if evt::is_target(&target) || stk::is_target(&target) {
         let deadline = max_seconds.map(|t| Instant::now() + Duration::from_secs_f64(t.max(0.0)));
@@ -135,7 +147,7 @@ fn cmd_search(args: &[String]) -> i32 {
         die(&format!("--universe must be in 1..={}", MAX_UNIVERSE));
     }
     let groups = search::groups_for(&target)
-        .unwrap_or_else(|| die(&format!("unknown target {:?}; targets: {} | {} | {} | {}", target, search::TARGETS, ext::TARGETS, evt::TARGETS, stk::TARGETS)));
+        .unwrap_or_else(|| die(&format!("unknown target {:?}; targets: {} | {} | {} | {} | {}", target, search::TARGETS, ext::TARGETS, evt::TARGETS, stk::TARGETS, mapread::TARGETS)));
     let mut s = Search {
         n: universe,
         seed,
@@ -211,6 +223,9 @@ fn cmd_replay(args: &[String]) -> i32 {
     }
     if gaps::owns(&j) {
         return gaps::cmd_replay(&j).unwrap_or_else(|e| die(&format!("replay: {}", e)));
+    }
+    if mapread::owns(&j) {
+        return mapread::cmd_replay(&j).unwrap_or_else(|e| die(&format!("replay: {}", e)));
     }
     if evt::owns(&j) || stk::owns(&j) {
         let replay =if evt::owns(&j) { evt::cmd_replay } else { stk::cmd_replay };
